@@ -94,6 +94,11 @@ pub fn run_cov(args: &[Sx]) -> Sx {
         let s: GIntervalIndexSet = args[0].tagged("regs").iter().map(region).collect();
         let mut d: Coverage<i64> = Coverage::new(&s);
         let mut sp: SparseCoverage<i64> = SparseCoverage::new(&s);
+        // shadow counters with a narrow element type: total_count is an f64 and must not depend on the counter type
+        let narrow_ok = args[1].tagged("ops").iter().all(|o| { let o = o.list(); match o[0].atom() { "ins" => (0..=2).contains(&o[4].i64()), "insat" => (0..=2).contains(&o[2].i64()), _ => true } });
+        let mut d8: Coverage<u8> = Coverage::new(&s);
+        let mut sp8: SparseCoverage<u8> = SparseCoverage::new(&s);
+        let narrow_live = std::cell::Cell::new(narrow_ok);
         for o in args[1].tagged("ops") {
             let o = o.list();
             match o[0].atom() {
@@ -102,18 +107,26 @@ pub fn run_cov(args: &[Sx]) -> Sx {
                     let k = o[4].i64();
                     d.insert(&t, k);
                     sp.insert(&t, k);
+                    // the u8 counters are driven only while no per-region count can overflow them
+                    if d.get_coverage().iter().any(|c| *c > 250) { narrow_live.set(false); }
+                    if narrow_live.get() { d8.insert(&t, k as u8); sp8.insert(&t, k as u8); }
                 }
                 "insat" => {
                     d.insert_at_index::<GenomicRange>(o[1].usize(), o[2].i64());
                     sp.insert_at_index::<GenomicRange>(o[1].usize(), o[2].i64());
+                    if d.get_coverage().iter().any(|c| *c > 250) { narrow_live.set(false); }
+                    if narrow_live.get() { d8.insert_at_index::<GenomicRange>(o[1].usize(), o[2].i64() as u8); sp8.insert_at_index::<GenomicRange>(o[1].usize(), o[2].i64() as u8); }
                 }
                 "reset" => {
                     d.reset();
                     sp.reset();
+                    d8.reset(); sp8.reset();
                 }
                 "get" => {
                     emit(Sx::L(vec![a("dense"), total(d.total_count()), a(d.len()), Sx::L(d.get_coverage().iter().map(a).collect())]));
                     emit(Sx::L(vec![a("sparse"), total(sp.total_count()), a(sp.len()), Sx::L(sp.get_coverage_as_vec().iter().map(a).collect())]));
+                    if narrow_live.get() && (d8.total_count() != d.total_count() || sp8.total_count() != d.total_count()
+                        || d8.get_coverage().iter().map(|x| *x as i64).collect::<Vec<_>>() != *d.get_coverage()) { emit(a("ORACLE-FAIL:u8-counters-disagree-with-i64-counters")); }
                     // the sparse map itself must hold exactly the entries of the vector view
                     for (i, v) in sp.get_coverage().iter() {
                         if !(sp.get_coverage_as_vec()[*i] == *v) { emit(a("ORACLE-FAIL:sparse-map-and-vector-view-disagree")) };
